@@ -82,7 +82,7 @@ CHECKS = {
         "rule": "every update(D) of every history is followed by read(): when no flattened array was in conflict before the update the serde_json serialisation must equal D with identifiers added to tracked objects, byte for byte; "
                 "otherwise the multiset of tracked objects (id, content) must equal D's. The same D is submitted again and state, has_staging and the stage export must not move; commit with nothing staged must return None and write no key. "
                 "Generators: hostile strings/ids/numbers, objects moving between arrays, flattened keys appearing/disappearing/changing kind, reverts to older documents. One dedicated case exercises known finding F10. "
-                "A fixed list of 20 unusual but valid shapes (scalars / null / empty containers under a flattened key, empty and marker-only keys, flattened keys inside plain objects, extreme numbers, strings that look like revisions or digests, identifiers that look like special digests, 200 kB strings, 3000 elements) is read back after update, commit, reopen and resubmission under two cache configurations. non-trivial = >=2 exact read-backs from a state with history and >=1 meld." + DISTINCT,
+                "A fixed list of 21 unusual but valid shapes (every hostile string of the pool as a KEY, scalars / null / empty containers under a flattened key, empty and marker-only keys, flattened keys inside plain objects, extreme numbers, strings that look like revisions or digests, identifiers that look like special digests, 200 kB strings, 3000 elements) is read back after update, commit, reopen and resubmission under two cache configurations. non-trivial = >=2 exact read-backs from a state with history and >=1 meld." + DISTINCT,
         "assumptions": ASSUME_COMMON + ["'!'-leading identifiers are generated for array elements only; the single-object shape is the dedicated F10 case"],
         "jobs": [engine("kind", "kind", "C04", (1280, 60000)), engine("general", "general", "C04", (480, 30000)), engine("conflict", "conflict", "C04", (480, 30000)), engine("wide", "wide", "C04", (320, 16000)), engine("lowlevel", "lowlevel", "C04", (240, 12000)),
                  mode("f10", "c04f10", (1, 1), shards=1), mode("shapes", "c04shapes", (1, 1), shards=1)],
